@@ -2071,7 +2071,14 @@ func lenBoundCheck(c *Ctx, fn *ssa.Function, uv *ssa.Call, buf *ssa.Parameter) {
 	}
 	isLenBuf := func(v ssa.Value) bool {
 		a, ok := lenArg(v)
-		return ok && fxStripNoConv(a) == ssa.Value(buf)
+		if !ok {
+			return false
+		}
+		a = fxStripNoConv(a)
+		if sl, isSl := a.(*ssa.Slice); isSl {
+			a = fxStripNoConv(sl.X)
+		}
+		return a == ssa.Value(buf)
 	}
 	// the narrowing conversions of k
 	var convs []*ssa.Convert
@@ -2102,7 +2109,7 @@ func lenBoundCheck(c *Ctx, fn *ssa.Function, uv *ssa.Call, buf *ssa.Parameter) {
 		return n > 0
 	}
 	for _, cv := range convs {
-		bounded := false
+		bounded, exact, inexact := false, false, false
 		for _, f := range ir.FactsAt(cv.Block()) {
 			bin, ok := f.Cond.(*ssa.BinOp)
 			if !ok {
@@ -2129,13 +2136,57 @@ func lenBoundCheck(c *Ctx, fn *ssa.Function, uv *ssa.Call, buf *ssa.Parameter) {
 			if f.Truth {
 				fail = f.From.Succs[1]
 			}
-			if errorOnly(fail) {
-				bounded = true
+			if !errorOnly(fail) {
+				continue
+			}
+			bounded = true
+			// exactness: the guard must reject exactly k > len(buf) - used.
+			// Normalise "the conversion is reached iff k ≤ T" and compare T,
+			// as a linear form over len(buf) and the byte count Uvarint consumed.
+			e, okForm := linearRemaining(other, buf, uv)
+			cpos := c.P.InstrPos(f.From.Instrs[len(f.From.Instrs)-1])
+			if !okForm {
+				inexact = true
+				c.Undecided(fn, cpos, "length bound", "the decoded length is compared with "+ir.Sym(other)+", which the rule cannot reduce to len(buf) - used")
+				continue
+			}
+			// accept side: f.Truth of (k op other) with k on the left
+			op := bin.Op
+			if !isK(bin.X) { // other op k  →  k op' other
+				op = map[token.Token]token.Token{token.LSS: token.GTR, token.LEQ: token.GEQ, token.GTR: token.LSS, token.GEQ: token.LEQ}[op]
+			}
+			// accepted ⇔ (k op other) == f.Truth ; express as k ≤ T
+			var shift int64
+			switch {
+			case op == token.GTR && !f.Truth: // !(k > E)  ⇔ k ≤ E
+				shift = 0
+			case op == token.GEQ && !f.Truth: // !(k ≥ E)  ⇔ k ≤ E-1
+				shift = -1
+			case op == token.LEQ && f.Truth: // k ≤ E
+				shift = 0
+			case op == token.LSS && f.Truth: // k < E ⇔ k ≤ E-1
+				shift = -1
+			default:
+				inexact = true
+				c.Violation(fn, cpos, "length bound", "the test "+ir.Sym(bin)+" accepts lengths ABOVE the bound and rejects those below it")
+				continue
+			}
+			e.c0 += shift
+			switch {
+			case e.cL == 1 && e.cU == -1 && e.c0 == 0:
+				exact = true
+			case e.cL == 1 && e.cU == -1 && e.c0 < 0:
+				inexact = true
+				c.Violation(fn, cpos, "length bound", fmt.Sprintf("the decoded length is accepted only up to len(buf) - used %+d: a final element that exactly fills the buffer is rejected, so valid nodes no longer load", e.c0))
+			default:
+				inexact = true
+				c.Violation(fn, cpos, "length bound", fmt.Sprintf("the decoded length is accepted up to %s, which exceeds the bytes that remain (len(buf) - used): a truncated or malformed node makes a caller slice past the buffer / allocate a huge list and panic instead of the load returning an error", e))
 			}
 		}
 		pos := c.P.InstrPos(cv)
 		switch {
-		case bounded:
+		case inexact:
+		case bounded && exact:
 			c.OK(pos, "length bound in "+fn.Name(), "the decoded length is compared with the bytes remaining before it is narrowed to int", false)
 		case armLenBound:
 			c.Violation(fn, pos, "length bound", "the decoded length is narrowed to int without being compared with the bytes that remain: a huge length turns negative (or enormous) and the caller's make panics instead of the load failing")
@@ -2549,4 +2600,73 @@ func copyLoopCheck(c *Ctx, dec *ssa.Function) {
 			c.Violation(lf, pos, construct, "the element loop runs to "+ir.Sym(bound)+" while the output list was made with "+ir.Sym(ms.Len)+" elements: trailing elements (the last link) are never decoded")
 		}
 	}
+}
+
+// linForm is cL*len(buf) + cU*used + c0.
+type linForm struct{ cL, cU, c0 int64 }
+
+func (e linForm) String() string {
+	var parts []string
+	term := func(k int64, name string) {
+		switch {
+		case k == 0:
+		case k == 1:
+			parts = append(parts, "+ "+name)
+		case k == -1:
+			parts = append(parts, "- "+name)
+		default:
+			parts = append(parts, fmt.Sprintf("%+d*%s", k, name))
+		}
+	}
+	term(e.cL, "len(buf)")
+	term(e.cU, "used")
+	if e.c0 != 0 || len(parts) == 0 {
+		parts = append(parts, fmt.Sprintf("%+d", e.c0))
+	}
+	return strings.TrimPrefix(strings.Join(parts, " "), "+ ")
+}
+
+// linearRemaining reduces v to a linear form over len(buf) and the number of
+// bytes binary.Uvarint consumed (its result #1): conversions are transparent,
+// + and - are followed, len(buf[used:]) is len(buf) - used.
+func linearRemaining(v ssa.Value, buf *ssa.Parameter, uv *ssa.Call) (linForm, bool) {
+	v = fxStrip(v)
+	if k := fxConst(v); k != nil && k.Kind() == constant.Int {
+		if n, exact := constant.Int64Val(k); exact {
+			return linForm{c0: n}, true
+		}
+		return linForm{}, false
+	}
+	if e, ok := v.(*ssa.Extract); ok && e.Tuple == ssa.Value(uv) && e.Index == 1 {
+		return linForm{cU: 1}, true
+	}
+	if a, ok := lenArg(v); ok {
+		a = fxStripNoConv(a)
+		if a == ssa.Value(buf) {
+			return linForm{cL: 1}, true
+		}
+		if sl, ok := a.(*ssa.Slice); ok && fxStripNoConv(sl.X) == ssa.Value(buf) && sl.High == nil && sl.Max == nil {
+			if sl.Low == nil {
+				return linForm{cL: 1}, true
+			}
+			lo, ok := linearRemaining(sl.Low, buf, uv)
+			if !ok {
+				return linForm{}, false
+			}
+			return linForm{cL: 1 - lo.cL, cU: -lo.cU, c0: -lo.c0}, true
+		}
+		return linForm{}, false
+	}
+	if bin, ok := v.(*ssa.BinOp); ok && (bin.Op == token.ADD || bin.Op == token.SUB) {
+		x, okx := linearRemaining(bin.X, buf, uv)
+		y, oky := linearRemaining(bin.Y, buf, uv)
+		if !okx || !oky {
+			return linForm{}, false
+		}
+		if bin.Op == token.SUB {
+			y = linForm{-y.cL, -y.cU, -y.c0}
+		}
+		return linForm{x.cL + y.cL, x.cU + y.cU, x.c0 + y.c0}, true
+	}
+	return linForm{}, false
 }
